@@ -73,16 +73,13 @@ def remove_unused_self_cls(source: str) -> str:
                 continue
             if funcdef.name in looked_up_on_class and funcdef.name not in class_non_instance_methods:
                 continue  # called with an explicit instance
-            if any(
-                core.match_template(
-                    dec,
-                    (
-                        ast.Name(id=("property", "cached_property")),
-                        ast.Attribute(attr=("cached_property", "setter", "getter", "deleter")),
-                ),)
+            if not all(
+                core.match_template(dec, ast.Name(id=("staticmethod", "classmethod")))
                 for dec in funcdef.decorator_list
             ):
-                continue  # a property is called with the instance
+                # What the class gets is the result of the decorator: a property is called with the
+                # instance, a wrapper may use it, a cache has it in its keys
+                continue
             if any(core.walk(funcdef, ast.Call(func=ast.Name(id="super"), args=[]))):
                 continue  # super() needs the instance / class argument
             first_arg_name = arguments[0].arg
